@@ -55,6 +55,8 @@ def run_tlc(job):
 
 
 def mc_cfg(consts, live=True, gen=False):
+    if "MaxOps" in consts and "Reenter" not in consts:
+        consts += " Reenter = FALSE"
     if gen:     # generator + safety in one pass; terminal states have no successor, deadlock = NoStuck
         return ("CONSTANTS %s Hist = TRUE\nINIT Init\nNEXT NextNoStutter\nVIEW View\nINVARIANT CexBeh JudgeOk EndOk NoStuck GenBeh\n"
                 "CHECK_DEADLOCK FALSE\n" % consts)
@@ -176,6 +178,11 @@ def check(run):
         ("pt live NT=2 O=3 R=3", "MC_PerThread", mc_cfg(PT33), dict(workers=w, timeout=1500)),
         ("pt gen", "MC_PerThread", mc_cfg(PT33 if thorough else PT23, gen=True), dict(workers=w, timeout=1500, coverage=thorough)),
         ("rc gen", "MC_PerThread", mc_cfg(RC33 if thorough else RC23, gen=True), dict(workers=w, timeout=1500)),
+        # instance factories that re-enter acquire() on the same wrapper and keep the reference ("acqr")
+        ("pt reenter gen", "MC_PerThread", mc_cfg("NT = 2 MaxOps = %d MaxRefs = 4 AllowMove = TRUE Reenter = TRUE %s" % (3 if thorough else 2, V), gen=True),
+         dict(workers=w, timeout=1500)),
+        ("rc reenter gen", "MC_PerThread", mc_cfg('NT = 2 MaxOps = %d MaxRefs = 4 AllowMove = FALSE Reenter = TRUE Variant = "orig"' % (3 if thorough else 2), gen=True),
+         dict(workers=w, timeout=1500)),
     ]
     if thorough:
         jobs += [
@@ -213,13 +220,18 @@ def check(run):
     pt_cover = pt_stims(results["pt gen"].out, "pt2", "sync")
     pt_sim = dedupe(pt_stims(results["pt sim NT=3 O=4 R=4"].out, "ptsim", "sync"))
     rc_cover = pt_stims(results["rc gen"].out, "rc2", "rc")
+    has_re = lambda st: any(o[0] == "acqr" for p in st["progs"] for o in p)
+    pt_re = [s for s in pt_stims(results["pt reenter gen"].out, "ptre", "sync") if has_re(s)]
+    rc_re = [s for s in pt_stims(results["rc reenter gen"].out, "rcre", "rc") if has_re(s)]
+    run.cov["reentrant_factory_behaviours"] = len(pt_re) + len(rc_re)
     cap = 4000 if thorough else 500
     def pick(xs, n):
         xs = list(xs)
         if len(xs) > n:
             xs = rng.sample(xs, n)
         return xs
-    scripted = pick(st_cover, cap) + pick(st_sim, cap) + pick(pt_cover, cap) + pick(pt_sim, cap) + pick(rc_cover, cap // 2)
+    scripted = (pick(st_cover, cap) + pick(st_sim, cap) + pick(pt_cover, cap) + pick(pt_sim, cap) + pick(rc_cover, cap // 2)
+                + pick(pt_re, cap // 2) + pick(rc_re, cap // 4))
     # counterexamples of the explorers (if any) are stimuli, too: a violation needs the real code to reproduce them
     for n, r in results.items():
         if "statics" in n:
